@@ -301,6 +301,22 @@ def extract_wrappers(repo, root, which='default'):
         body = r + '\npub mod ring {\n//@@SRC resolvers/ring.rs\nuse vstd::prelude::*;\nverus! {\n%s\n} // verus!\n}\n' % d
     else:
         d = wrapper_file('default')
+        # R23: a default trait method that the core only knows by contract (Dh::dh_len, external_body in the trait) is
+        # materialised - with the trait's own body text - in every impl that does not override it, so that each impl's
+        # dh_len is verified against the trait contract (what Rust's method resolution does, made explicit)
+        tsrc = rd('types.rs')
+        mdef = re.search(r'(?m)^    fn dh_len\(&self\) -> usize \{\n(.*?)^    \}\n', tsrc, re.S)
+        if not mdef:
+            raise AnchorLost('R23: default body of Dh::dh_len not found in types.rs')
+        default_dh_len = '    fn dh_len(&self) -> usize {\n' + mdef.group(1) + '    }\n'
+        n23 = 0
+        for mimpl in reversed(list(re.finditer(r'(?m)^impl Dh for (\w+) \{\n', d))):
+            start = mimpl.end()
+            close = _match_close(d, mimpl.end() - 2)
+            if not re.search(r'\bfn dh_len\b', d[start:close]):
+                d = d[:close - 1] + '\n    //@@R23 default method materialised from types.rs\n' + default_dh_len + d[close - 1:]
+                n23 += 1
+        ex.counts['R23'] = n23
         d = _sub(ex, 'R5w', r'impl Random for OsRng \{\}',
                  'impl Random for OsRng { #[verifier::external_body] fn fill_bytes(&mut self, dest: &mut [u8]) { unimplemented!() } }', d, expect=1)
         d = _pub_fields(ex, d)
@@ -317,7 +333,8 @@ def extract_wrappers(repo, root, which='default'):
         return ex
     ex.dropped = ['wrapper unit: only constants, error, types, params choices, resolvers/mod.rs, resolvers/default.rs are in this unit',
                   'third-party crates replaced by stub modules with ASSUMED contracts (spec/deps/*.rs)',
-                  'P-256, XChaChaPoly, Kyber wrappers are compiled out (cfg) in the default configuration']
+                  'P-256, XChaChaPoly, Kyber wrappers are compiled out (cfg) in the default configuration',
+                  'R23: the default body of Dh::dh_len (types.rs) is materialised in every impl Dh that does not override it']
     return ex
 
 
